@@ -43,6 +43,11 @@ def F(x):
     return ['f', lib.bits_of(x)] if x == x else ['f', lib.CANON_NAN]
 
 
+def kw_dict(kws):
+    """keyword arguments are a dict: a repeated name cannot be expressed in a call (the last one written wins here)"""
+    return {k: v for k, v in kws}
+
+
 def wire_pyval(v):
     t = v[0]
     if t == 's': return 's' + lib.hx(v[1])
@@ -67,13 +72,13 @@ def wire_op(op):
         a, k = '-', '-'
     else:
         a = wire_list([wire_pyval(v) for v in args])
-        k = wire_list([lib.hx(kv[0]) + '=' + wire_pyval(kv[1]) for kv in kws])
+        k = wire_list([lib.hx(kk) + '=' + wire_pyval(vv) for kk, vv in kw_dict(kws).items()])
     if act in ('inc', 'dec', 'set', 'observe'):
         w = lib.fbits(float(py_of(arg)))
     elif act == 'state':
         w = lib.hx(arg)
     elif act == 'info':
-        w = wire_list([lib.hx(k2) + '~' + ('N' if v2 is None else lib.hx(v2)) for k2, v2 in arg])
+        w = wire_list([lib.hx(k2) + '~' + ('N' if v2 is None else lib.hx(v2)) for k2, v2 in kw_dict(arg).items()])
     else:
         w = '-'
     return 'call/%s/%s/%s/%s' % (a, k, act, w)
@@ -127,7 +132,7 @@ def do_real(m, op):
     _, args, kws, act, arg = op
     target = m
     if args is not None:
-        target = m.labels(*[py_of(v) for v in args], **{k: py_of(v) for k, v in kws})
+        target = m.labels(*[py_of(v) for v in args], **{k: py_of(v) for k, v in kw_dict(kws).items()})
     if act == 'touch':
         return None
     meth = getattr(target, act)
@@ -184,6 +189,7 @@ class Ref:
 
     # -- expected outcome of a call: 'ok' | 'ValueError' | None (the statement does not classify the call)
     def key_of(self, args, kws):
+        kws = list(kw_dict(kws).items())
         if args and kws:
             return None, None                      # unclassified
         if kws:
@@ -208,7 +214,7 @@ class Ref:
             return 'ValueError'                    # negative counter increment
         if self.kind == 'enum' and arg not in self.states:
             return 'ValueError'                    # unknown enum state
-        if self.kind == 'info' and any(k in self.labelnames or v is None for k, v in arg):
+        if self.kind == 'info' and any(k in self.labelnames or v is None for k, v in kw_dict(arg).items()):
             return None                            # overlapping / None info labels: unclassified
         return 'ok'
 
